@@ -118,7 +118,8 @@ def hand_f(p):
 
     def f(x):
         d = x - a
-        return float(0.5 * d @ Q @ d + np.sum(w * (np.exp(x - xs) - (x - xs))))
+        with np.errstate(all="ignore"):   # derivative-free methods probe far away: exp may overflow to inf
+            return float(0.5 * d @ Q @ d + np.sum(w * (np.exp(x - xs) - (x - xs))))
 
     def g(x):
         return Q @ (x - a) + w * (np.exp(x - xs) - 1.0)
